@@ -237,7 +237,12 @@ class FamilyMixin:
         sel = self.rowsel(h.rows, op["idx"])
         ln = max(0, h.cols + op["dlen"])
         data = [self.fresh_value(h.tname, op["v"] * 16 + c) for c in range(ln)]
-        got = self.call(h.real.__setitem__, self.key_of(op["idx"]), self.make_array(h.tname, data))
+        ld = self.live_data(op, h.tname, ln, h.store)
+        if ld:
+            dobj, data = ld
+        else:
+            dobj = self.make_array(h.tname, data)
+        got = self.call(h.real.__setitem__, self.key_of(op["idx"]), dobj)
         bad = sel is None or ln != h.cols
         if ln != h.cols:
             self.inc("fault.bad_length")
@@ -511,7 +516,12 @@ class FamilyMixin:
         want = (len(sx) if sx is not None else 1) * (len(sy) if sy is not None else 1)
         ln = max(0, want + op["dlen"])
         data = [self.fresh_value(h.tname, op["v"] * 32 + z + 5) for z in range(ln)]
-        got = self.call(h.real.__setitem__, (self.key_of(op["x"]), self.key_of(op["y"])), self.make_array(h.tname, data))
+        ld = self.live_data(op, h.tname, ln, h.store)
+        if ld:
+            dobj, data = ld
+        else:
+            dobj = self.make_array(h.tname, data)
+        got = self.call(h.real.__setitem__, (self.key_of(op["x"]), self.key_of(op["y"])), dobj)
         bad = sx is None or sy is None or ln != want
         if ln != want:
             self.inc("fault.bad_length")
@@ -815,7 +825,12 @@ class FamilyMixin:
         ln = max(0, (sizes[0] if sizes else 1) + op["dlen"])
         data = [self.fresh_value(h.tname, op["v"] * 16 + c) for c in range(ln)]
         before = [list(r.vals) for r in h.store.vals]
-        got = self.call(h.real.__setitem__, self.key_of(op["idx"]), self.make_array(h.tname, data))
+        ld = self.live_data(op, h.tname, ln, None)
+        if ld and not any(ld[0] is o.real and any(o.store is rs for rs in h.store.vals) for o in self.slots):
+            dobj, data = ld[0], [tuple(v) for v in ld[1]]
+        else:
+            dobj = self.make_array(h.tname, data)
+        got = self.call(h.real.__setitem__, self.key_of(op["idx"]), dobj)
         bad = sel is None or not h.writable or any(s != ln for s in sizes)
         if not h.writable:
             self.inc("fault.write_via_readonly")
